@@ -495,6 +495,16 @@ def stim_strategy(draw, cfg, nmax):
         n -= n % r                                    # two thirds of the streams are whole port words
     hmul = draw(st.sampled_from([1, 2, 3, 5]))
     horizon = n * hmul
+    if cfg.get("bypass") and draw(st.integers(0, 3)) == 0:
+        # "switches between bypass and DRAM mode" at every phase of the producer: one consumer stall pushes the device into DRAM mode, then the
+        # consumer keeps up so that the DRAM path runs dry again and again while words keep arriving in short bursts with sweeping gaps
+        capw = capacity_words(cfg)
+        b = draw(st.integers(1, 3))
+        g0 = draw(st.integers(0, 6))
+        psegs = [[(b + g) * draw(st.integers(1, 3)), b, g] for g in range(g0, g0 + draw(st.integers(6, 14)))]
+        csegs = [[draw(st.integers(capw // 4, capw)), 0, 1], [draw(st.integers(200, 600)), 1, 0]]
+        return dict(n=n, seed=draw(st.integers(0, (1 << 32) - 1)), prod=dict(segs=psegs, horizon=horizon), cons=dict(segs=csegs, horizon=horizon),
+                    slave=draw(slave_strategy()))
     return dict(n=n, seed=draw(st.integers(0, (1 << 32) - 1)),
                 prod=draw(sched_strategy(cfg, "prod", horizon)), cons=draw(sched_strategy(cfg, "cons", horizon)),
                 slave=draw(slave_strategy()))
